@@ -10,6 +10,7 @@ package main
 
 import (
 	"bytes"
+	"encoding/json"
 	"fmt"
 	"os"
 	"os/exec"
@@ -196,10 +197,11 @@ func runMutants(ms []mutant, onlyProp, repo string) []mutantResult {
 
 func selftestFor(prop, repo, vdir string) any {
 	res := runMutants(allMutants(), prop, repo)
+	res = append(res, runPatchFixtures(prop, repo, vdir)...)
 	killed, survived, skipped := 0, 0, 0
 	for _, r := range res {
 		switch {
-		case r.Outcome == "killed" || r.Outcome == "quiet":
+		case r.Outcome == "killed" || r.Outcome == "quiet" || r.Outcome == "declined":
 			killed++
 		case r.Outcome == "survived":
 			survived++
@@ -213,10 +215,11 @@ func selftestFor(prop, repo, vdir string) any {
 
 func runSelftestCLI(prop, repo, vdir string) int {
 	res := runMutants(allMutants(), prop, repo)
+	res = append(res, runPatchFixtures(prop, repo, vdir)...)
 	bad := 0
 	for _, r := range res {
 		fmt.Printf("%-10s %-4s %-34s fired=%v expected=%v  %s\n", r.Outcome, r.Property, r.ID, r.Fired, r.Expected, r.Desc)
-		if r.Outcome != "killed" && r.Outcome != "quiet" {
+		if r.Outcome != "killed" && r.Outcome != "quiet" && r.Outcome != "declined" && !strings.HasPrefix(r.Outcome, "skipped(diff") {
 			bad++
 		}
 	}
@@ -230,7 +233,10 @@ func runSelftestCLI(prop, repo, vdir string) int {
 // configMatrix re-runs the property's rules under other build
 // configurations and in NaiveForm; the verdicts must agree.
 func configMatrix(run *Run, p *property, repo, vdir string) any {
-	type cfg struct{ goos, goarch string; naive bool }
+	type cfg struct {
+		goos, goarch string
+		naive        bool
+	}
 	// NaiveForm is deliberately not part of the matrix: the rules are written against go/ssa's
 	// lifted (register) form; the naive form is another normal form of the same program, so a
 	// disagreement there would say nothing about /repo (DESIGN 6.4).
@@ -275,4 +281,105 @@ func configMatrix(run *Run, p *property, repo, vdir string) any {
 		}
 	}
 	return out
+}
+
+// ---- patch fixtures: behaviour-preserving refactorings kept as unified diffs ----
+//
+// /verif/refactors/*.diff are multi-file refactorings of the pinned tree written by
+// independent sub-agents (extract/inline helper, control-flow rewrites, signature
+// changes ...). Each is applied to a scratch copy of the touched files (never to
+// /repo), analysed through an overlay, and must stay quiet. A diff that no longer
+// applies to the tree under analysis is skipped.
+
+type patchFixture struct {
+	ID       string   `json:"id"`
+	Diff     string   `json:"diff"`
+	Files    []string `json:"files"`
+	Props    []string `json:"props"`
+	Declined string   `json:"declined,omitempty"`
+}
+
+func loadPatchFixtures(vdir string) []patchFixture {
+	data, err := os.ReadFile(filepath.Join(vdir, "refactors", "index.json"))
+	if err != nil {
+		return nil
+	}
+	var out []patchFixture
+	if json.Unmarshal(data, &out) != nil {
+		return nil
+	}
+	return out
+}
+
+func runPatchFixtures(onlyProp, repo, vdir string) []mutantResult {
+	type job struct {
+		f    patchFixture
+		prop string
+	}
+	var jobs []job
+	for _, f := range loadPatchFixtures(vdir) {
+		for _, p := range f.Props {
+			if onlyProp == "" || onlyProp == p {
+				jobs = append(jobs, job{f, p})
+			}
+		}
+	}
+	results := make([]mutantResult, len(jobs))
+	sem := make(chan struct{}, 6)
+	var wg sync.WaitGroup
+	for i, j := range jobs {
+		wg.Add(1)
+		go func(i int, j job) {
+			defer wg.Done()
+			sem <- struct{}{}
+			defer func() { <-sem }()
+			res := mutantResult{ID: "refactor-" + j.f.ID, Property: j.prop, Desc: "behaviour-preserving refactoring (patch fixture " + j.f.Diff + ")"}
+			defer func() { results[i] = res }()
+			tmp, err := os.MkdirTemp("", "ruxref")
+			if err != nil {
+				res.Outcome = "skipped(tmp)"
+				return
+			}
+			defer os.RemoveAll(tmp)
+			for _, rel := range j.f.Files {
+				data, err := os.ReadFile(filepath.Join(repo, rel))
+				if err != nil {
+					continue // a file the diff creates
+				}
+				_ = os.MkdirAll(filepath.Dir(filepath.Join(tmp, rel)), 0o755)
+				_ = os.WriteFile(filepath.Join(tmp, rel), data, 0o644)
+			}
+			cmd := exec.Command("patch", "-p1", "-s", "-f", "--no-backup-if-mismatch", "-i", filepath.Join(vdir, "refactors", j.f.Diff))
+			cmd.Dir = tmp
+			if outb, err := cmd.CombinedOutput(); err != nil {
+				res.Outcome = "skipped(diff does not apply to this tree)"
+				_ = outb
+				return
+			}
+			var ovs [][2]string
+			for _, rel := range j.f.Files {
+				if _, err := os.Stat(filepath.Join(tmp, rel)); err == nil {
+					ovs = append(ovs, [2]string{filepath.Join(repo, rel), filepath.Join(tmp, rel)})
+				}
+			}
+			reps, loadFail, _ := subRun(j.prop, repo, ovs)
+			if loadFail {
+				res.Outcome = "invalid(does not type-check)"
+				return
+			}
+			res.Outcome = "quiet"
+			if len(reps) > 0 {
+				res.Outcome = "false-alarm"
+				if j.f.Declined != "" {
+					res.Outcome = "declined"
+					res.Desc += " — " + j.f.Declined
+				}
+				for _, r := range reps {
+					res.Fired = append(res.Fired, r.Rule+" "+r.Construct)
+				}
+			}
+		}(i, j)
+	}
+	wg.Wait()
+	return results
 }
